@@ -124,6 +124,14 @@ def run(ctx):
                             "expansion / definition of that symbol (Lean: canonical_form_collision_escaped_name)",
         }[cls]
         ctx.failing_input(FP[cls], what, replay)
+    # resolve's scoping rule (a macro parameter shadows a global name): renaming the parameters of a
+    # macro must not change the expansion
+    ctx.coverage["parameter_shadowing_cases"] = stats.get("shadow_cases", 0)
+    for m in stats.get("shadow_mismatches", [])[:1]:
+        ctx.failing_input("macro-parameter-shadowing",
+                          "a macro parameter whose name is also a global name (bare terminal of the extern enum / "
+                          "nonterminal) is not treated as the parameter: the expansion differs from the expansion of the "
+                          "same grammar with the parameters renamed", m)
     ctx.coverage["compiled_value_cases"] = stats.get("value_cases", 0)
     for w in compiled:
         if w.get("class") == "witness-build-failed":
